@@ -1,4 +1,5 @@
 import ErbiumModel.Model.DnsCache
+import ErbiumModel.Generated.Dns
 /-! # C06 — the DNS cache never serves data past its TTL and never makes TTLs grow -/
 namespace Erbium.Props.C06
 open Erbium Erbium.DnsCache
@@ -176,5 +177,11 @@ def exR : Reply := { answer := [300, 60], authority := [120], additional := [360
 example : lookup (runOps ⟨[], 0⟩ [.resolve exK exR, .tick 59500000000]).cache exK 59500000000
     = .hit { answer := [241, 1], authority := [61], additional := [3541] } := by decide
 example : lookup (runOps ⟨[], 0⟩ [.resolve exK exR, .tick 60000000001]).cache exK 60000000001 = .miss := by decide
+
+/-- **C06 (the key).** On the real query path an entry is stored and looked up under the query's own name, type,
+    DNSSEC-OK and checking-disabled bits — the `CacheKey` literal in `CacheHandler::handle_query` takes each field from
+    the field of the same meaning, and the key has no other field (extracted; the store/lookup theorems above are about
+    that key). -/
+theorem C06_key_is_name_type_do_cd : Generated.Dns.cacheKeyFromQuery = true := by decide
 
 end Erbium.Props.C06
